@@ -167,6 +167,17 @@ def graph_case(chk, i):
         flags += ["--allowlist-type", rng.choice(classes)]
     elif cut < 0.6 and classes:
         flags += ["--no-copy", rng.choice(classes)]
+    elif cut < 0.78 and len(classes) >= 2:
+        # several allowlisted classes without recursion: what they share (by value) stays outside the allowlist and has to count as
+        # underivable for every one of its users, whatever the order
+        shared = [c for c in g.nodes if c.kind == "class" and sum(1 for o in g.nodes if o is not c and c.name in o.needs_complete) >= 2]
+        if shared:
+            sh_ = rng.choice(shared)
+            users = [o.name for o in g.nodes if o.kind == "class" and o is not sh_ and sh_.name in o.needs_complete]
+            pick_ = users
+        else:
+            pick_ = rng.sample(classes, min(len(classes), rng.randint(2, 3)))
+        flags += ["--no-recursive-allowlist", "--allowlist-type", "|".join(pick_)]
     limit = chk.pick(10, 48)
     orders, total = gen_graph.valid_orders(g, rng, limit)
     name = "graph-%d" % i
